@@ -19,10 +19,10 @@ SPEC = {
          'sinks': {'C14_med': 'med_judge'}, 'n': {'quick': 200, 'thorough': 10000}},
         {'pkg': 'commit/chainfee', 'pkgname': 'chainfee',
          'src': 'harness/commit/chainfee/c14_test.go', 'test': 'TestVerif_C14_cf', 'fakes': True,
-         'sinks': {'C14_cf': 'cf_judge'}, 'n': {'quick': 400, 'thorough': 20000}},
+         'sinks': {'C14_cf': 'cf_judge'}, 'n': {'quick': 250, 'thorough': 20000}},
         {'pkg': 'commit/tokenprice', 'pkgname': 'tokenprice',
          'src': 'harness/commit/tokenprice/c14_test.go', 'test': 'TestVerif_C14_tp', 'fakes': True,
-         'sinks': {'C14_tp': 'tp_judge'}, 'n': {'quick': 400, 'thorough': 20000}},
+         'sinks': {'C14_tp': 'tp_judge'}, 'n': {'quick': 250, 'thorough': 20000}},
     ],
     'known': {},
     'rule': 'dev: operand magnitudes 0..2^260, x1 placed at the deviation threshold of x2 (ppb-1/ppb/ppb+1, +-1 unit), zeros, equal, '
